@@ -124,6 +124,33 @@ def wide_frame(n, n_rare):
     return pd.DataFrame(rows).astype(object)
 
 
+PLAIN = [("Id_1", "Integer", I_, False), ("Me_s", "String", M_, True), ("Me_s2", "String", M_, True), ("Me_i", "Integer", M_, True),
+         ("Me_i2", "Integer", M_, True), ("Me_b", "Boolean", M_, True), ("Me_b2", "Boolean", M_, True)]
+PLAIN_SCRIPTS = ["DS_r <- DS_P;", "DS_r <- DS_P[calc Me_9 := Me_s || Me_s2, Me_8 := Me_i - Me_i2][filter Me_b or not Me_b2];", "DS_r <- DS_P[keep Me_s2, Me_i2, Me_b2];"]
+
+
+def check_plain(ctx, n):
+    """columns already in their storage types (int64 / str / bool, no nulls, no Number/Date): nothing needs converting on the way in, so
+    any positional shortcut of the loader shows as swapped same-typed columns when the frame's column order differs from the structure"""
+    st = engine.structures(engine.ds_struct("DS_P", PLAIN))
+    df = pd.DataFrame({"Id_1": range(n), "Me_s": ["a%d" % (i % 7) for i in range(n)], "Me_s2": ["zz%d" % (i % 5) for i in range(n)],
+                       "Me_i": [i % 11 for i in range(n)], "Me_i2": [100 + i % 3 for i in range(n)],
+                       "Me_b": [i % 2 == 0 for i in range(n)], "Me_b2": [i % 3 == 0 for i in range(n)]})
+    viol = 0
+    for s in PLAIN_SCRIPTS:
+        base = result_sig(engine.run_case(s, st, {"DS_P": df}))
+        for k in range(4):
+            d = permute_df(df, ctx.rng, rows=(k % 2 == 1), cols=True)
+            ctx.count(("plain", s, tuple(d.columns), k % 2))
+            r = result_sig(engine.run_case(s, st, {"DS_P": d}))
+            if r != base:
+                viol += 1
+                ctx.violation("plain:cols-shuffled", f"{s} over a DataFrame in storage types gives different datapoints when its columns are ordered {list(d.columns)}",
+                              {"script": s, "columns": list(d.columns), "rows": n, "base": str(base)[:500], "other": str(r)[:500]})
+                break
+    return viol
+
+
 def check_wide(ctx, n, tmp):
     """large inputs with pairs of same-typed columns and late rare spellings: rows/columns permuted, DataFrame and CSV forms"""
     st = engine.structures(engine.ds_struct("DS_L", WIDE))
@@ -258,6 +285,7 @@ def run(ctx):
         v1 = check_generated(ctx, 40 if q else 1500, tmp)
         v2 = check_corpus(ctx, 30 if q else 2300, tmp)
         v3 = check_wide(ctx, 3000 if q else 60000, tmp)
+        v5 = check_plain(ctx, 50 if q else 5000)
         v4 = check_zoo(ctx, 1 if q else 25, tmp)
     ctx.cov["rule"] = ("each generated script (exprk generator) is re-run on all row permutations of its inputs when every input has ≤ 3 rows "
                        "(capped at 40 combinations), on random row permutations + shuffled column orders as DataFrames and as CSV files; each "
